@@ -143,7 +143,7 @@ theorem resRes_put_out {sp : Spec} {f : Facts} {r : RunRes} {ms : List (Nat × B
     rec.kind.isOut = true ∧ (pc = .needDelete → rec.resolved = true) ∧
     ((rec.incub = true ∨ rec.resolved = true) →
       (r.rc.incub = true ∨ r.rc.resolved = true) ∨ ∃ b, (c.idx, b) ∈ ms) := by
-  obtain ⟨key, ⟨kind, incub, resolved⟩, rpc⟩ := r
+  obtain ⟨key, ⟨kind, incub, resolved⟩, rpc, handed⟩ := r
   unfold resRes at h
   simp only at h hc
   simp only [hc] at h
@@ -155,7 +155,7 @@ theorem resRes_put_out {sp : Spec} {f : Facts} {r : RunRes} {ms : List (Nat × B
 
 theorem resRes_put_del {sp : Spec} {f : Facts} {r : RunRes} {ms : List (Nat × Bool)} {rec : Rec} {pc : RPc}
     (h : resRes sp f r = .put ms rec pc) : pc = .needDelete → rec.resolved = true := by
-  obtain ⟨key, ⟨kind, incub, resolved⟩, rpc⟩ := r
+  obtain ⟨key, ⟨kind, incub, resolved⟩, rpc, handed⟩ := r
   unfold resRes at h
   simp only at h
   repeat' split at h
@@ -201,6 +201,17 @@ theorem resApply_invR {sp : Spec} {s s' : Sys} {k : Nat} {r : RunRes} {rr : ResR
     · intro a ha hpc
       rcases mem_setActive ha with ⟨rfl, _⟩ | ⟨ha', _⟩
       · cases hpc
+      · exact h.a3 a ha' hpc
+  · -- incubate
+    cases hs
+    refine ⟨?_, h.l1, ?_, h.d1⟩
+    · intro a ha c hc ho
+      rcases mem_setActive ha with ⟨rfl, _⟩ | ⟨ha', _⟩
+      · exact h.a1 r hr c hc ho
+      · exact h.a1 a ha' c hc ho
+    · intro a ha hpc
+      rcases mem_setActive ha with ⟨rfl, _⟩ | ⟨ha', _⟩
+      · exact h.a3 r hr hpc
       · exact h.a3 a ha' hpc
   · -- put
     rename_i ms rec pc
@@ -656,6 +667,7 @@ theorem resApply_invU {sp : Spec} {s s' : Sys} {k : Nat} {r : RunRes} {rr : ResR
   unfold resApply at hs
   split at hs
   · cases hs
+  · cases hs; exact invU_of_msgs h ⟨rfl, rfl⟩ rfl rfl rfl rfl rfl (fun _ hm => hm)
   · cases hs; exact invU_of_msgs h ⟨rfl, rfl⟩ rfl rfl rfl rfl rfl (fun _ hm => hm)
   · rename_i ms rec pc
     by_cases hp : rec.kind.persisted = true
